@@ -105,4 +105,90 @@ theorem accepted_signers (rec : σ → Option Bytes) (vals : List Bytes) (sigs :
 example : verify (fun (s : Nat) => some [s.toUInt8]) [[1], [2], [3]] [some 1, some 2, some 3] = none ∧
     ([[1], [2], [3]] : List Bytes).Nodup := by decide
 
+/-! ### proofContextMap.Verify (btp/proofcontextmap.go)
+
+`pcm ntid` is the map lookup (`none` = no context registered for that network type),
+`digests` the `(NetworkTypeID, NetworkTypeSectionHash)` list of the BTP digest, `proofs`
+the `NTSDProofList`, `decode` = `NewProofFromBytes`, `rec uid dbytes` = signer recovery for
+the module-`uid` hash of the decision bytes `dbytes`. -/
+
+/-- the map accepts iff there is exactly one proof per digest entry whose network type has a
+    registered context, and the `k`-th proof is accepted by `Verify` of the context registered
+    for the network type of the `k`-th such entry, over the decision built from THAT entry's
+    network type id and section hash (and the given source uid, height, round). -/
+theorem map_verify_iff (pcm : Int → Option Ctx) (decode : Bytes → Option (List (Option σ)))
+    (rec : Nat → Bytes → σ → Option Bytes) (src : Option Bytes) (height round : Int)
+    (digests : List (Int × Option Bytes)) (proofs : List Bytes) :
+    verifyMap pcm decode rec src height round digests proofs = none ↔
+      (registered pcm digests).length = proofs.length ∧
+      ∀ (k : Nat) (ntid : Int) (h : Option Bytes), (registered pcm digests)[k]? = some (ntid, h) →
+        ∃ ctx sigs, pcm ntid = some ctx ∧ decode (proofs.getD k []) = some sigs ∧
+          verify (rec ctx.uid (Decision.bytes
+            { src := src, ntid := ntid, height := height, round := round, ntsHash := h }))
+            ctx.vals sigs = none :=
+  verifyMap_iff pcm decode rec src height round digests proofs
+
+/-- **own context only**: in an accepted vote, the proof for the `k`-th registered network type
+    carries, at each occupied slot `i`, a signature that recovers — under the decision of THAT
+    network type — to validator `i` of the context registered for THAT network type, from more
+    than two thirds of that context's validators.  No other context's validator list is consulted. -/
+theorem map_proof_checked_against_own_context (pcm : Int → Option Ctx)
+    (decode : Bytes → Option (List (Option σ))) (rec : Nat → Bytes → σ → Option Bytes)
+    (src : Option Bytes) (height round : Int) (digests : List (Int × Option Bytes))
+    (proofs : List Bytes)
+    (hacc : verifyMap pcm decode rec src height round digests proofs = none)
+    (k : Nat) (ntid : Int) (h : Option Bytes) (hk : (registered pcm digests)[k]? = some (ntid, h)) :
+    ∃ ctx sigs, pcm ntid = some ctx ∧ decode (proofs.getD k []) = some sigs ∧
+      (∀ (i : Nat) (s : σ), sigs[i]? = some (some s) →
+        ∃ a, rec ctx.uid (Decision.bytes
+          { src := src, ntid := ntid, height := height, round := round, ntsHash := h }) s = some a ∧
+          ctx.vals[i]? = some a) ∧
+      3 * present sigs > 2 * ctx.vals.length := by
+  obtain ⟨ctx, sigs, h1, h2, h3⟩ := ((map_verify_iff pcm decode rec src height round digests proofs).mp hacc).2 k ntid h hk
+  exact ⟨ctx, sigs, h1, h2, (btp_verify_iff _ _ _).mp h3⟩
+
+/-- a vote carrying a different number of proofs than registered network types in the digest —
+    in particular an extra proof for a network type without registered context — is rejected. -/
+theorem map_wrong_proof_count_rejected (pcm : Int → Option Ctx)
+    (decode : Bytes → Option (List (Option σ))) (rec : Nat → Bytes → σ → Option Bytes)
+    (src : Option Bytes) (height round : Int) (digests : List (Int × Option Bytes))
+    (proofs : List Bytes) (h : (registered pcm digests).length ≠ proofs.length) :
+    verifyMap pcm decode rec src height round digests proofs = some .invalidLen := by
+  unfold verifyMap; rw [if_pos h]
+
+/-- a registered network type whose proof is missing quorum, undecodable, or signed for another
+    network type's decision (recovery under this type's decision does not give this context's
+    validators) rejects the whole vote. -/
+theorem map_bad_proof_rejected (pcm : Int → Option Ctx)
+    (decode : Bytes → Option (List (Option σ))) (rec : Nat → Bytes → σ → Option Bytes)
+    (src : Option Bytes) (height round : Int) (digests : List (Int × Option Bytes))
+    (proofs : List Bytes) (k : Nat) (ntid : Int) (h : Option Bytes) (ctx : Ctx)
+    (hk : (registered pcm digests)[k]? = some (ntid, h)) (hc : pcm ntid = some ctx)
+    (hbad : ∀ sigs, decode (proofs.getD k []) = some sigs →
+      verify (rec ctx.uid (Decision.bytes
+        { src := src, ntid := ntid, height := height, round := round, ntsHash := h })) ctx.vals sigs ≠ none) :
+    verifyMap pcm decode rec src height round digests proofs ≠ none := by
+  intro hacc
+  obtain ⟨ctx', sigs, h1, h2, h3⟩ := ((map_verify_iff pcm decode rec src height round digests proofs).mp hacc).2 k ntid h hk
+  rw [hc] at h1; cases h1
+  exact hbad sigs h2 h3
+
+/-- non-vacuity: two network types with different validator sets; proofs in the right order are
+    accepted, swapped proofs are rejected. -/
+def exPcm : Int → Option Ctx := fun n =>
+  if n = 1 then some ⟨0, [[1], [2], [3]]⟩ else if n = 2 then some ⟨1, [[7], [8], [9]]⟩ else none
+def exDecode : Bytes → Option (List (Option Nat)) := fun b => some (b.map (fun x => some x.toNat))
+def exRec : Nat → Bytes → Nat → Option Bytes := fun _ _ s => some [s.toUInt8]
+
+example : verifyMap exPcm exDecode exRec none 10 0 [(1, none), (5, none), (2, none)] [[1, 2, 3], [7, 8, 9]] = none ∧
+    verifyMap exPcm exDecode exRec none 10 0 [(1, none), (5, none), (2, none)] [[7, 8, 9], [1, 2, 3]] ≠ none ∧
+    verifyMap exPcm exDecode exRec none 10 0 [(1, none), (5, none), (2, none)] [[1, 2, 3], [1, 2, 3], [7, 8, 9]]
+      = some .invalidLen := by decide
+
+/-- decision bytes of a sample decision (matches `NewDecision(...).Bytes()` of the Go code; the
+    correspondence run compares the encoder on generated decisions). -/
+def exDecision : Decision :=
+  { src := some [0x30, 0x78, 0x31], ntid := 2, height := 300, round := 1, ntsHash := none }
+example : exDecision.bytes = [0xcb, 0x83, 0x30, 0x78, 0x31, 0x02, 0x82, 0x01, 0x2c, 0x01, 0xf8, 0x00] := by decide
+
 end Goloop.C29
